@@ -21,7 +21,7 @@ CONSTANTS Budget,      \* number of non-default choices per sentence
           OpsOnly,     \* TRUE: only operator templates may be chosen at expression positions (C07)
           LeafAlts,    \* FALSE: leaves keep their default spelling
           DenseDepth   \* 0: optional parts default to absent.  d > 0: "dense" derivations - down to nesting depth d below the
-                       \* start symbol an optional clause / flag defaults to PRESENT and leaving it out costs 1, so a small
+                       \* start symbol an optional clause / flag defaults to PRESENT (a list to two elements) and leaving it out costs 1, so a small
                        \* budget enumerates the sentences with (almost) all optional parts of a construct present at once
 VARIABLES work, tape, budget
 vars == <<work, tape, budget>>
@@ -39,7 +39,7 @@ Selectable(nt, j) == LET t == Templates(nt)[j] IN
 \* dense marking: the options of a construct at depth <= DenseDepth carry dense > 0
 D(it) == IF "dense" \in DOMAIN it THEN it.dense ELSE 0
 Mark(items, d) == [k \in 1..Len(items) |->
-                     IF d > 0 /\ items[k].i \in {"O", "OPT", "FLAG"} THEN [dense |-> d] @@ items[k]
+                     IF d > 0 /\ items[k].i \in {"O", "OPT", "FLAG", "L"} THEN [dense |-> d] @@ items[k]
                      ELSE IF d > 1 /\ items[k].i = "N" THEN [dense |-> d - 1] @@ items[k]
                      ELSE items[k]]
 WrapParen(f, inner) == <<OPEN("ParenExpr", f), T("(")>> \o inner \o <<T(")"), CLOSE>>
@@ -91,7 +91,10 @@ Step ==
            ELSE (Choose(rest, 0) \/ Choose(it.its \o rest, 1))
      \/ /\ it.i = "L"
         /\ \E n \in it.min..(it.min + 2) :
-              Choose((IF it.open THEN <<LOPEN(it.f)>> ELSE <<>>) \o Rep(it, n, 1) \o (IF it.open THEN <<LCLOSE>> ELSE <<>>) \o rest, n - it.min)
+              \* dense: a list has two elements unless budget is spent on another length
+              LET dflt == IF D(it) > 0 THEN (IF it.min > 2 THEN it.min ELSE 2) ELSE it.min
+                  cost == IF n >= dflt THEN n - dflt ELSE dflt - n IN
+              Choose((IF it.open THEN <<LOPEN(it.f)>> ELSE <<>>) \o Rep(it, n, 1) \o (IF it.open THEN <<LCLOSE>> ELSE <<>>) \o rest, cost)
      \/ /\ it.i = "FLAG"
         /\ \/ Choose(<<SET(it.f, FALSE)>> \o rest, IF D(it) > 0 THEN 1 ELSE 0)
            \/ Choose(<<SET(it.f, TRUE)>> \o it.its \o rest, IF D(it) > 0 THEN 0 ELSE 1)
